@@ -39,5 +39,5 @@ Theorem c02_archetype_move_touches_no_other_entity :
     exists w', move_entity w (sai, srow) dst nw = ROk tt w' /\ StoreInv w' /\
                (forall k c, k <> e -> abs w' k c = abs w k c) /\
                (forall c, abs w' e c = row_col da dvals c).
-Proof. exact move_entity_ok. Qed.
+Proof. exact move_entity_ok_core. Qed.
 Print Assumptions c02_archetype_move_touches_no_other_entity.
